@@ -124,6 +124,11 @@ private theorem evalBObj_upper (expF logF : ℚ → ℚ) (pb : Problem) (b : Boo
 theorem C12_bounds_table : ∀ w ∈ wrappers, w.objFixed = true ∧ w.objBoundsOk = true ∧
     (w.optLower = none → w.optimizer ≠ "scipy.optimize.brute" → w.objLower = some .lower ∧ w.objUpper = some .upper) := by decide
 
+/-- in the current source the bounds a wrapper hands to its optimiser have been contracted with `_project_params_down`, like
+    the start vector they belong to -/
+theorem C12_optbounds_table : ∀ w ∈ wrappers,
+    (w.optLower.map VE.isProjected).getD true = true ∧ (w.optUpper.map VE.isProjected).getD true = true := by decide
+
 /-- in the current source a wrapper negates `_object_func` exactly when it asks its optimiser to MAXIMISE: every optimiser
     maximises the likelihood (`objectiveAtFull` is `-ll/ll_scale` for the minimisers and `ll` for `opt`) -/
 theorem C12_sign_table : ∀ w ∈ wrappers, w.negated = w.maximize := by decide
